@@ -300,6 +300,15 @@ def check_merge(cx: Cx, ob: Ob) -> None:
                 elif op(c) == "cmp" and c[1] in ("==", "!=") and val in (c[2], c[3]) and ((c[1] == "!=") == pol):
                     other = c[3] if c[2] == val else c[2]
                     cover |= {f for rr, f in prov.fields(other) if rr == into}
+                elif op(c) == "cmp" and c[1] in ("in", "not in") and ((c[1] == "not in") == pol) and op(c[2]) == "call" and op(c[2][1]) == "attr" and c[2][1][1] == val and c[2][1][2] in ("casefold", "lower", "upper", "strip"):
+                    ob.violate(
+                        fn.qualname,
+                        where(fn, ev.line),
+                        f"_merge adds a name to into.{lst} only if its {c[2][1][2]}()-ed form is new: a (URI) prefix that differs from an existing one only by {'whitespace' if c[2][1][2] == 'strip' else 'case'} is silently dropped - it resolves nowhere although the merge succeeded",
+                        witness="merge Record(prefix='go', uri_prefix='http://x/GO_') into a record owning 'http://x/go_': compress('http://x/GO_1') is None afterwards",
+                        detail=f"weak-membership:{lst}",
+                    )
+                    unknown_guard = True
                 elif any(x == val for x in subterms(c)):
                     unknown_guard = True
         missing = sides[lst] - cover
@@ -499,6 +508,16 @@ def check_compare_helpers(cx: Cx, ob: Ob) -> None:
                     return "F"
             return None
 
+        bis = [x for t, _, _ in hs.all_terms() for x in subterms(t) if op(x) == "call" and op(x[1]) == "ext" and x[1][1].startswith("bisect.")]
+        if bis:
+            ob.violate(
+                h.qualname,
+                h.where,
+                f"{name} looks its argument up by binary search ({bis[0][1][1]}): synonym lists carry no sortedness invariant (only _merge and add_prefix sort; records built directly or by the loaders keep the given order), so present names are reported absent",
+                witness="Record(prefix='P', prefix_synonyms=['zeta', 'alpha']): _in('alpha', synonyms) is False and a record named 'alpha' is appended as a second owner",
+                detail="binary-search",
+            )
+            continue
         bad = None
         try:
             for E in (False, True):
@@ -551,3 +570,17 @@ def x3(cx: Cx, ob: Ob) -> None:
     from ..rules import cached_derivations
 
     cached_derivations(cx, ob)
+
+
+@obligation("C05-X8", "the Record model stores prefixes and URI prefixes verbatim: no pydantic string transformation (strip / case folding / length limits) in its model_config or field declarations", floor=1)
+def x8(cx: Cx, ob: Ob) -> None:
+    from ..rules import record_verbatim
+
+    record_verbatim(cx, ob)
+
+
+@obligation("C05-X10", "Converter.__init__ reads its (Iterable, possibly one-shot) `records` argument only through one materialising call (sorted/list) and keeps that fresh list - never the caller's list object, never sorted in place", floor=2)
+def x10(cx: Cx, ob: Ob) -> None:
+    from ..rules import constructor_owns_records
+
+    constructor_owns_records(cx, ob)
